@@ -48,7 +48,7 @@ pub struct Spec {
 }
 
 pub fn scenario_names() -> Vec<&'static str> {
-    vec!["status", "login-transfer", "pipelined-login-transfer", "eager-login-transfer", "cookie-transfer", "eager-cookie-transfer", "login-no-target", "big-frames-slow-discovery", "slow-discovery", "slow-filter", "slow-strategy"]
+    vec!["status", "login-transfer", "pipelined-login-transfer", "eager-login-transfer", "cookie-transfer", "eager-cookie-transfer", "login-no-target", "big-frames-slow-discovery", "slow-discovery", "slow-filter", "slow-strategy", "silent-client-slow-routing"]
 }
 
 fn scenario(name: &str) -> Case {
@@ -95,9 +95,23 @@ fn scenario(name: &str) -> Case {
                 _ => case.adapters.strat_ms = 20_000,
             }
         }
+        // a client that never answers a Keep Alive while two routing stages are slow: Keep Alive at 16 s, the
+        // timeout Disconnect at 32 s - also when the transport takes the Keep Alive frame only in part at the
+        // tick and the rest after discovery has answered
+        "silent-client-slow-routing" => {
+            case.script = Login::default().steps();
+            case.echo = Echo::Never;
+            case.adapters.disc_ms = 17_000;
+            case.adapters.filter_ms = 40_000;
+        }
         other => common::machinery(&format!("unknown scenario {other}")),
     }
     case
+}
+
+/// for the scenario whose client is silent by design: how many Keep Alives were sent and when the Disconnect came
+fn keep_alive_view(obs: &Obs) -> (usize, Option<Ms>) {
+    (obs.packets.iter().filter(|(_, p)| matches!(p, Pkt::KeepAlive { .. })).count(), obs.packets.iter().find(|(_, p)| matches!(p, Pkt::ConfDisconnect { .. })).map(|(t, _)| *t))
 }
 
 fn apply(case: &mut Case, devs: &[Dev]) {
@@ -323,7 +337,8 @@ fn run_spec(base: &Base, spec: &Spec) -> (Obs, Option<(String, String)>, bool) {
     if let RunResult::Panic(p) = &obs.result {
         return (obs.clone(), Some((format!("panic:{}", classify(base, &spec.devs)), p.clone())), false);
     }
-    if client_non_compliant(&obs) {
+    let silent = spec.scenario.starts_with("silent");
+    if !silent && client_non_compliant(&obs) {
         return (obs, None, true);
     }
     let (bp, bc, br) = observable(&base.obs);
@@ -338,6 +353,8 @@ fn run_spec(base: &Base, spec: &Spec) -> (Obs, Option<(String, String)>, bool) {
         diff = Some(format!("service calls differ: baseline {:?} / here {:?}", bc.iter().map(|c| c.kind()).collect::<Vec<_>>(), oc.iter().map(|c| c.kind()).collect::<Vec<_>>()));
     } else if or != br {
         diff = Some(format!("outcome differs: baseline {br} / here {or} ({:?})", obs.result));
+    } else if silent && keep_alive_view(&obs) != keep_alive_view(&base.obs) {
+        diff = Some(format!("a client that never echoes: baseline (Keep Alives sent, Disconnect at) = {:?}, here {:?}; timed packets here {:?}", keep_alive_view(&base.obs), keep_alive_view(&obs), obs.packets.iter().map(|(t, p)| (*t, p.kind())).collect::<Vec<_>>()));
     } else if !matches!(obs.result, RunResult::Horizon) {
         // every byte of the client's stream that arrived before the connection ended must have been
         // consumed (what arrives at or after the end may be left over)
@@ -468,7 +485,14 @@ pub fn run(cli: Cli) -> ! {
         rep.set("traces_validated_against_impl", json!(1));
         rep.finish();
     }
-    let thorough = cli.tier.thorough();
+    core(&rep, cli.tier.thorough());
+    rep.finish()
+}
+
+/// The sweep over the virtual transport (everything but the replay of one schedule). netsim's C08 runs it and
+/// adds the segmentations that only exist in front of a real listener (PROXY protocol header and first packets
+/// in one TCP segment).
+pub fn core(rep: &Report, thorough: bool) {
     let cn = Counters { runs: AtomicU64::new(0), unjudged: AtomicU64::new(0), split_across_timer: AtomicU64::new(0), partial_writes: AtomicU64::new(0) };
     let distinct: Mutex<HashSet<String>> = Mutex::new(HashSet::new());
     let seeds = seeds_for_patterns(6);
@@ -506,12 +530,30 @@ pub fn run(cli: Cli) -> ! {
         if observable(&b2) != observable(&base.obs) {
             common::machinery("two baseline runs differ");
         }
-        let singles = single_devs(&base, thorough);
+        let mut singles = single_devs(&base, thorough);
+        if name.starts_with("silent") {
+            // only deviations that leave the arrival times of the client's bytes alone (those shift the timeline
+            // legitimately): a clientbound frame accepted in part at its instant and completed later
+            // (and only on the Keep Alive frame, completed before the next tick: a frame stuck in the transport
+            // delays whatever has to be written behind it, which is the transport's doing)
+            singles.retain(|d| match d {
+                Dev::Write { frame, first, wait, t } => *first > 0 && base.cb_frames.get(*frame).map(|f| f.1) == Some("KeepAlive") && (wait != "until" || *t < 2 * PERIOD),
+                Dev::OneByteWrites => true,
+                _ => false,
+            });
+        }
         let mut specs: Vec<Spec> = singles.iter().map(|d| Spec { scenario: name.into(), devs: vec![d.clone()] }).collect();
         // select-draw patterns: alone and combined with one-byte reads
         for s in &seeds {
             specs.push(Spec { scenario: name.into(), devs: vec![Dev::Seed { seed: *s }] });
-            specs.push(Spec { scenario: name.into(), devs: vec![Dev::Seed { seed: *s }, Dev::OneByteReads] });
+            if name.starts_with("silent") {
+                // (one-byte reads delay the client's bytes; here: every draw pattern with a Keep Alive taken in part)
+                for d in singles.iter().filter(|d| matches!(d, Dev::Write { .. })).take(12) {
+                    specs.push(Spec { scenario: name.into(), devs: vec![Dev::Seed { seed: *s }, d.clone()] });
+                }
+            } else {
+                specs.push(Spec { scenario: name.into(), devs: vec![Dev::Seed { seed: *s }, Dev::OneByteReads] });
+            }
         }
         // one-byte segmentation combined with every single pause
         for d in singles.iter().filter(|d| matches!(d, Dev::SplitUntil { .. } | Dev::SplitMs { .. })) {
@@ -668,5 +710,4 @@ pub fn run(cli: Cli) -> ! {
     rep.sample(json!({"spec": Spec { scenario: "status".into(), devs: vec![Dev::OneByteReads] }}));
     rep.assume("pauses are the stated classes relative to the baseline timeline, not arbitrary real-valued delays");
     rep.assume("keep-alive packets and volatile cookie fields (timestamp, session id) are excluded from the differential comparison");
-    rep.finish()
 }
